@@ -93,7 +93,7 @@ Print Assumptions C09_udp_error_internal_constant_legacy_refuted.
    decodes to the request's own transaction id (bytes 12..15 of the request), the action code the request
    used (1, or 4 for the opentracker action - whatever the requester's family), the configured interval in
    whole seconds, the counts and the peers the logic computed, in entries of the requester's family *)
-From Chihaya Require Import Model.Tracker Proofs.TrackerP Proofs.FamilyP.
+From Chihaya Require Import Model.Tracker Proofs.SwarmP Proofs.SpecP Proofs.TrackerP Proofs.FamilyP.
 Theorem C09_udp_announce_end_to_end : forall mac t u ops clock ip packet txid v6a r q,
   Forall sop_sane ops -> wf_bytes packet = true -> wf_bytes ip = true -> (length ip = 4 \/ length ip = 16)%nat ->
   UdpParse.handle_udp mac (uc_key u) (uc_skew u) clock (uc_opts u) ip packet = UdpParse.UAnnounce txid v6a r q ->
